@@ -10,7 +10,7 @@
    The remote ([last], [get]) is ARBITRARY.
 
    Go panics are explicit: [PPanic] (SuffrageProof.Prove dereferences a nil previous state for a
-   non-genesis proof) and [EPanic] (slice index out of range).   No proofs in this file. *)
+   non-genesis proof, or calls Equal on a nil previous-state hash) and [EPanic] (slice index out of range).   No proofs in this file. *)
 From Coq Require Import List Arith Bool ZArith NArith PeanoNat.
 From MV Require Import Common.Batch Common.Chain Common.Cases.
 Import ListNotations.
@@ -39,17 +39,25 @@ Definition prove_proof (p : prec) (previous : option prec) : pres :=
     | None => PPanic                     (* previousState.Height() on a nil interface *)
     | Some q =>
         if bh p <=? bh q then PErr
+        else if N.eqb (sprev p) 0 then PPanic          (* s.st.Previous().Equal(..) on a nil hash *)
         else if negb (N.eqb (sprev p) (sid q)) then PErr
         else if negb (sh p =? sh q + 1) then PErr
         else if tree_ok p then POk else PErr
     end.
 
 Inductive ecode : Type :=
-| EWrongSize | EGet | ENotFound | EHeight | EWrongHeight | ENoPrev | EProve | ELast | EInvalid
+| EWrongSize | EGet | ENotFound | EHeight | EWrongHeight | ENoPrev | ENoPrevHash | EProve | ELast | EInvalid
 | ELastErr | ECand | EPanic.
 
 Definition of_pres (r : pres) : res unit ecode :=
   match r with POk => Ok tt | PErr => Err EProve | PPanic => Err EPanic end.
+
+(* proveSuffrageProof(proof, previous): the builder's guards in front of Prove *)
+Definition prove_guarded (p : prec) (previous : option prec) : res unit ecode :=
+  match previous with
+  | None => if negb (bh p =? 0) then Err ENoPrev else of_pres (prove_proof p previous)
+  | Some _ => if N.eqb (sprev p) 0 then Err ENoPrevHash else of_pres (prove_proof p previous)
+  end.
 
 Definition sh_of_prev (previous : option prec) : Z :=
   match previous with Some q => sh q | None => -1 end.
@@ -63,19 +71,14 @@ Definition prove_slot (p : prec) (proofs : list (option prec)) (previous : optio
     let k := Z.to_nat index in
     let proofs' := updl proofs k (Some p) in
     let c0 : res unit ecode :=
-      if index =? 0 then
-        match previous with
-        | None => if negb (bh p =? 0) then Err ENoPrev else of_pres (prove_proof p previous)
-        | Some _ => of_pres (prove_proof p previous)
-        end
-      else Ok tt in
+      if index =? 0 then prove_guarded p previous else Ok tt in
     match c0 with
     | Err e => Err e
     | Ok _ =>
         let c1 : res unit ecode :=
           if 0 <? index then
             match nth (k - 1) proofs' None with
-            | Some q => of_pres (prove_proof p (Some q))
+            | Some q => prove_guarded p (Some q)
             | None => Ok tt
             end
           else Ok tt in
@@ -83,7 +86,7 @@ Definition prove_slot (p : prec) (proofs : list (option prec)) (previous : optio
         | Err e => Err e
         | Ok _ =>
             match nth (k + 1) proofs' None with
-            | Some q => match of_pres (prove_proof q (Some p)) with Ok _ => Ok proofs' | Err e => Err e end
+            | Some q => match prove_guarded q (Some p) with Ok _ => Ok proofs' | Err e => Err e end
             | None => Ok proofs'
             end
         end
